@@ -79,6 +79,11 @@ func (k *Keeper) SlashAssets(ctx sdk.Context, parameter *types.SlashInputInfo) (
 	if err != nil {
 		return nil, err
 	}
+	// nothing is at risk anymore if the operator has no staking or unbonding value left,
+	// the proportion can't be calculated in this case (division by zero).
+	if !stakingInfo.StakingAndWaitUnbonding.IsPositive() {
+		return nil, errorsmod.Wrapf(types.ErrValueIsNilOrZero, "the operator has no value to slash, operator:%s, value:%s", parameter.Operator, stakingInfo.StakingAndWaitUnbonding)
+	}
 	// calculate the new slash proportion
 	newSlashProportion := slashUSDValue.Quo(stakingInfo.StakingAndWaitUnbonding)
 	newSlashProportion = sdkmath.LegacyMinDec(sdkmath.LegacyNewDec(1), newSlashProportion)
